@@ -116,6 +116,13 @@ class WorldGen(object):
         rng, k = self.rng, self.k
         self.root_url = k.root_url
         self.doc_urls = rng.sample(DOC_URLS, k.ndocs)
+        if k.ndocs >= 2 and rng.random() < 0.15:
+            # two DIFFERENT documents whose URLs differ only by a percent-encoded reserved character and its literal
+            # meaning: a store that decodes before it normalises would take them for one
+            pair = rng.choice([["http://sim.test/root/p%2Fq.json", "http://sim.test/root/p/q.json"],
+                               ["http://sim.test/root/lang/c%23", "http://sim.test/root/lang/c"],
+                               ["http://sim.test/root/what%3F", "http://sim.test/root/what"]])
+            self.doc_urls[:2] = pair
         # documents that are *falsy* JSON values: the empty schema, an empty array, (draft 6+) false/true
         self.plain_docs = {}
         if rng.random() < 0.3:
